@@ -1,7 +1,7 @@
 (** * C04 — the array core of vec.c / buf.c refines the abstract sequence (part 1: primitives,
       insert, store, erase, resize, accessors) *)
 From Coq Require Import ZArith NArith List Bool Lia Arith.
-From LibaV Require Import C04.VecDefs C04.VecSpec C04.ListAux.
+From LibaV Require Import C04.VecDefs C04.VecSpec C04.ListAux C04.SwapProofs.
 Import ListNotations.
 Local Open Scope N_scope.
 
@@ -230,4 +230,59 @@ Proof.
       rewrite sl_read_slot; [|assumption|unfold nlen; rewrite lupd_length by lia; lia].
       f_equal. apply nth_error_nth with (d := []). rewrite ne_lupd by lia.
       rewrite Nat.eqb_refl. reflexivity.
+Qed.
+
+(** ** a_swap on slots *)
+Lemma nlen_concat : forall siz sl, Forall (elem_ok siz) sl -> nlen (concat sl) = siz * nlen sl.
+Proof.
+  intros siz sl H. unfold nlen. rewrite (concat_length_ok (N.to_nat siz)) by exact H. lia.
+Qed.
+
+Lemma sl_swap_rot : forall siz sl p m, 0 < siz -> Forall (elem_ok siz) sl -> p + m < nlen sl ->
+    sl_swap siz sl (siz * p) (siz * (p + 1)) (siz * m)
+    = Ok (lrot (N.to_nat p) (N.to_nat m) sl).
+Proof.
+  intros siz sl p m Hs H Hp. unfold sl_swap. rewrite (nlen_concat siz sl H).
+  destruct (N.leb_spec (siz * p + siz * m) (siz * nlen sl)) as [_|C];
+    [|pose proof (mul_le_l siz (p + m) (nlen sl)); lia].
+  destruct (N.leb_spec (siz * (p + 1) + siz * m) (siz * nlen sl)) as [_|C];
+    [|pose proof (mul_le_l siz (p + 1 + m) (nlen sl)); lia].
+  cbn [andb]. f_equal.
+  rewrite !N2Nat.inj_mul. replace (N.to_nat (p + 1)) with (N.to_nat p + 1)%nat by lia.
+  rewrite (swap_loop_rot (N.to_nat siz)); [|lia|exact H|unfold nlen in Hp; lia].
+  rewrite <- (lrot_length (N.to_nat p) (N.to_nat m) sl) by (unfold nlen in Hp; lia).
+  apply chunk_concat. apply (Forall_lrot (fun e => length e = N.to_nat siz));
+    [unfold nlen in Hp; lia|exact H].
+Qed.
+
+Lemma sl_swap_adj : forall siz sl j, 0 < siz -> Forall (elem_ok siz) sl -> j + 1 < nlen sl ->
+    sl_swap siz sl (siz * j) (siz * (j + 1)) siz = Ok (lswap (N.to_nat j) sl).
+Proof.
+  intros siz sl j Hs H Hj. unfold sl_swap. rewrite (nlen_concat siz sl H).
+  destruct (N.leb_spec (siz * j + siz) (siz * nlen sl)) as [_|C];
+    [|pose proof (mul_le_l siz (j + 1) (nlen sl)); lia].
+  destruct (N.leb_spec (siz * (j + 1) + siz) (siz * nlen sl)) as [_|C];
+    [|pose proof (mul_le_l siz (j + 1 + 1) (nlen sl)); lia].
+  cbn [andb]. f_equal.
+  rewrite !N2Nat.inj_mul. replace (N.to_nat (j + 1)) with (N.to_nat j + 1)%nat by lia.
+  rewrite (swap_loop_adjacent (N.to_nat siz)); [|exact H|unfold nlen in Hj; lia].
+  rewrite <- (lswap_length (N.to_nat j) sl) by (unfold nlen in Hj; lia).
+  apply chunk_concat. apply (Forall_lswap (fun e => length e = N.to_nat siz));
+    [unfold nlen in Hj; lia|exact H].
+Qed.
+
+Lemma sl_swap_adj' : forall siz sl j, 0 < siz -> Forall (elem_ok siz) sl -> j + 1 < nlen sl ->
+    sl_swap siz sl (siz * (j + 1)) (siz * j) siz = Ok (lswap (N.to_nat j) sl).
+Proof.
+  intros siz sl j Hs H Hj. rewrite <- (sl_swap_adj siz sl j Hs H Hj).
+  unfold sl_swap. rewrite (nlen_concat siz sl H).
+  destruct (N.leb_spec (siz * j + siz) (siz * nlen sl)) as [_|C];
+    [|pose proof (mul_le_l siz (j + 1) (nlen sl)); lia].
+  destruct (N.leb_spec (siz * (j + 1) + siz) (siz * nlen sl)) as [_|C];
+    [|pose proof (mul_le_l siz (j + 1 + 1) (nlen sl)); lia].
+  cbn [andb]. f_equal. f_equal.
+  pose proof (concat_length_ok (N.to_nat siz) sl H) as Hc.
+  assert (N.to_nat (siz * (j + 1)) + N.to_nat siz <= length (concat sl))%nat.
+  { rewrite Hc. unfold nlen in Hj. nia. }
+  apply swap_loop_sym; lia.
 Qed.
